@@ -396,9 +396,12 @@ def generate(repo):
         ('expr.Expr.__init__', normalised_source(one_def(expr_cls.body, '__init__', 'expr.py'))),
         ('expr.Expr.is_int', normalised_source(one_def(expr_cls.body, 'is_int', 'expr.py'))),
         ('expr.Expr.__int__', normalised_source(one_def(expr_cls.body, '__int__', 'expr.py'))),
-        ('expr.Expr.eval_new', normalised_source(one_def(expr_cls.body, 'eval_new', 'expr.py'))),
-        ('expr.Expr.exact_eval', normalised_source(one_def(expr_cls.body, 'exact_eval', 'expr.py'))),
+        # Expr.eval_new / Expr.exact_eval are not tied by their text any more: gen_facts_expr translates them into the IR of
+        # Model/PyIR.v and Tie/Expr_tie.v proves the interpreter on that IR equal to the hand model (their text in
+        # Model/Expr.modelled_sources is kept as documentation)
     ]
+    for name in ('eval_new', 'exact_eval'):
+        one_def(expr_cls.body, name, 'expr.py')
 
     lexer_cls = find_class(pt, 'FJLexer', 'fj_parser.py')
     parser_cls = find_class(pt, 'FJParser', 'fj_parser.py')
